@@ -28,6 +28,7 @@ TECHNIQUE += '; pickle protocol of nodes: __getstate__ -> __setstate__ interpret
 LEVEL_TEXT += ' Added clause: every constructor field of a rule, the left-recursion marks included, survives pickling.'
 TECHNIQUE += '; the PARSER source template hands every content parameter of Grammar.__init__ to the per-parse Grammar'
 LEVEL_TEXT += " Added clause: the generated parser class parses with the model's keywords."
+LEVEL_TEXT += ' Added clauses (rounds 9-11): Grammar.__from_json__ hands on the decoded members unchanged; Model.link re-binds nodes to the grammar given.'
 TECHNIQUE += '; asjson of ten scalar kinds is dumpable'
 TECHNIQUE += '; Grammar.__from_json__ interpreted on decoded members: same rule objects handed on, none changed (C14.R11)'
 TECHNIQUE += '; Model.link(grammar) re-binds node and children to the grammar given (R12, interpreted on linked / unlinked stand-ins)'
